@@ -1,9 +1,11 @@
 package lib
 
 import (
+	"fmt"
 	"net"
 	"regexp"
 	"strconv"
+	"strings"
 
 	"github.com/refraction-networking/conjure/pkg/station/geoip"
 	"github.com/refraction-networking/conjure/pkg/station/liveness"
@@ -51,38 +53,44 @@ type RegConfig struct {
 }
 
 // ParseBlocklists converts string arrays of blocklisted domains, addresses and
-// subnets and parses them into a usable format
-func (c *RegConfig) ParseBlocklists() {
+// subnets and parses them into a usable format. Whitespace around a subnet is
+// ignored. An entry that cannot be parsed is never dropped silently: it is
+// returned as an error and the configuration must not be used.
+func (c *RegConfig) ParseBlocklists() error {
 	c.covertBlocklistSubnets = []*net.IPNet{}
 	for _, subnet := range c.CovertBlocklistSubnets {
-		_, ipNet, err := net.ParseCIDR(subnet)
-		if err == nil {
-			c.covertBlocklistSubnets = append(c.covertBlocklistSubnets, ipNet)
+		_, ipNet, err := net.ParseCIDR(strings.TrimSpace(subnet))
+		if err != nil {
+			return fmt.Errorf("covert_blocklist_subnets: %w", err)
 		}
+		c.covertBlocklistSubnets = append(c.covertBlocklistSubnets, ipNet)
 	}
 
 	c.covertBlocklistDomains = []*regexp.Regexp{}
 	for _, r := range c.CovertBlocklistDomains {
-		blockedDom := regexp.MustCompile(r)
-		if blockedDom != nil {
-			c.covertBlocklistDomains = append(c.covertBlocklistDomains, blockedDom)
+		blockedDom, err := regexp.Compile(r)
+		if err != nil {
+			return fmt.Errorf("covert_blocklist_domains: %w", err)
 		}
+		c.covertBlocklistDomains = append(c.covertBlocklistDomains, blockedDom)
 	}
 
 	c.phantomBlocklist = []*net.IPNet{}
 	for _, subnet := range c.PhantomBlocklist {
-		_, ipNet, err := net.ParseCIDR(subnet)
-		if err == nil {
-			c.phantomBlocklist = append(c.phantomBlocklist, ipNet)
+		_, ipNet, err := net.ParseCIDR(strings.TrimSpace(subnet))
+		if err != nil {
+			return fmt.Errorf("phantom_blocklist: %w", err)
 		}
+		c.phantomBlocklist = append(c.phantomBlocklist, ipNet)
 	}
 
 	c.covertAllowlistSubnets = []*net.IPNet{}
 	for _, subnet := range c.CovertAllowlistSubnets {
-		_, ipNet, err := net.ParseCIDR(subnet)
-		if err == nil {
-			c.covertAllowlistSubnets = append(c.covertAllowlistSubnets, ipNet)
+		_, ipNet, err := net.ParseCIDR(strings.TrimSpace(subnet))
+		if err != nil {
+			return fmt.Errorf("covert_allowlist_subnets: %w", err)
 		}
+		c.covertAllowlistSubnets = append(c.covertAllowlistSubnets, ipNet)
 	}
 	if len(c.covertAllowlistSubnets) > 0 {
 		c.enableCovertAllowlist = true
@@ -92,7 +100,7 @@ func (c *RegConfig) ParseBlocklists() {
 		// Add all public local addresses to the blocklist.
 		ifaces, err := net.Interfaces()
 		if err != nil {
-			return
+			return fmt.Errorf("covert_blocklist_public_addrs: %w", err)
 		}
 
 		for _, i := range ifaces {
@@ -115,6 +123,8 @@ func (c *RegConfig) ParseBlocklists() {
 			}
 		}
 	}
+
+	return nil
 }
 
 // ParseOrResolveBlocklisted attempts to return an IP:port string whenever
